@@ -36,6 +36,8 @@ Filters == << <<Id("x"), [k |-> "ord", v |-> "eq", a |-> 1], [k |-> "int", v |->
               <<Id("y"), [k |-> "lb"], [k |-> "int", v |-> <<0, 0, 0, 0>>, txt |-> "0"], [k |-> "rb"],
                 [k |-> "ord", v |-> "eq", a |-> 1], [k |-> "int", v |-> <<0, 0, 0, 1>>, txt |-> "1"]>>,
               <<Id("x"), [k |-> "in"], [k |-> "list", name |-> <<108, 49>>, valid |-> TRUE, txt |-> "$l1"]>> >>
+ValueExprs == << <<Id("x")>>,
+                 <<Id("y"), [k |-> "lb"], [k |-> "int", v |-> <<0, 0, 0, 0>>, txt |-> "0"], [k |-> "rb"]>> >>
 M1 == [kind |-> "set", sets |-> <<[name |-> <<108, 49>>, vals |-> <<I5>>]>>]
 
 Alive(c) == c <= Len(w) /\ w[c].alive
@@ -50,6 +52,7 @@ OpsOn(c) ==
   \cup {[op |-> "get", c |-> c, name |-> n] : n \in Names}
   \cup {[op |-> "clear", c |-> c], [op |-> "clone", c |-> c], [op |-> "take", c |-> c]}
   \cup {[op |-> "exec", c |-> c, fsch |-> f, ts |-> Filters[i]] : f \in {1, 2}, i \in 1..(IF WithLists THEN 3 ELSE 2)}
+  \cup {[op |-> "execv", c |-> c, fsch |-> f, ts |-> ValueExprs[i]] : f \in {1, 2}, i \in 1..2}
   \cup (IF WithLists THEN {[op |-> "setlist", c |-> c, li |-> 1, m |-> M1]} ELSE {})
   \cup {[op |-> "borrow", c |-> c, ops |-> <<o>>] : o \in InnerSets(c)}
   \cup {[op |-> "borrow", c |-> c, ops |-> <<o, [op |-> "clear", c |-> c]>>] : o \in InnerSets(c)}
